@@ -101,6 +101,12 @@ class NpProxy:
             return out
         return np.bincount(x, weights, minlength)
 
+    def float32(self, x):
+        """`np.float32(b0)` of a symbolic right-hand side is rounding: identity for the real-number model"""
+        if isinstance(x, np.ndarray) and x.dtype == object:
+            return x
+        return np.float32(x)
+
     def empty(self, shape, dtype=float, **kw):
         """a float `np.empty` buffer whose columns are assigned symbolic values"""
         if NpProxy.tracer is not None and dtype is float:
@@ -756,4 +762,118 @@ def gen_poisson():
     g.vec("sysB2", tr, flat_syms(tr, rec2["b"]), names)
     g.vec("result2", tr, flat_syms(tr, x2), names)
     g.raw("def fmtA : String := \"%s\"\n" % rec1["a"].getformat())
+    return [g.write()]
+
+
+def _symmat_arith():
+    """sparse +, -, scalar * for the stand-in (what `eigs` and `diffusion` use)"""
+    def add(self, other):
+        return SymMat(self.M + other.M, self.fmt)
+
+    def sub(self, other):
+        return SymMat(self.M - other.M, self.fmt)
+
+    def rmul(self, c):
+        return SymMat(c * self.M, self.fmt)
+    SymMat.__add__ = add
+    SymMat.__sub__ = sub
+    SymMat.__rmul__ = rmul
+    SymMat.dtype = np.dtype("float64")
+
+
+_symmat_arith()
+
+
+def gen_solver_glue():
+    """`Solver.eigs` and `heat.diffusion` on symbolic 3x3 matrices: what is factorised, what is handed to `eigsh` / `solve`, what
+    is returned (the external kernels are replaced by recorders that return fresh symbols)"""
+    import lapy
+    import lapy.solver as S
+    import lapy.heat as H
+    import scipy.sparse.linalg as SL
+    tr = Tracer()
+    NpProxy.tracer = tr
+    A = sym_array(tr, "a", (3, 3))
+    B = sym_array(tr, "b", (3, 3))
+    names = {"a%d_%d" % (i, j): "a%d%d" % (i, j) for i in range(3) for j in range(3)}
+    names.update({"b%d_%d" % (i, j): "b%d%d" % (i, j) for i in range(3) for j in range(3)})
+    names.update({"m": "m", "ell": "ell"})
+    s = S.Solver.__new__(S.Solver)
+    s.stiffness = SymMat(A)
+    s.mass = SymMat(B)
+    s.use_cholmod = False
+    rec, call = {}, {}
+    saved = (SL.splu, SL.eigsh, lapy.Solver)
+    ret_vals, ret_vecs = object(), object()
+
+    def fake_eigsh(*args, **kw):
+        call["args"] = args
+        call["kw"] = kw
+        return ret_vals, ret_vecs
+
+    class FakeGeometry:
+        def __init__(self):
+            self.v = np.zeros((3, 3))
+
+        def avg_edge_length(self):
+            return tr.var("ell")
+
+    made = {}
+
+    def fake_solver(geometry, lump=False, aniso=None, **kw):
+        made["geometry"] = geometry
+        made["lump"] = lump
+        made["aniso"] = aniso
+        made["extra"] = sorted(kw)
+        return s
+
+    rec2 = {}
+    try:
+        with core_quiet():
+            SL.splu = lambda a: _LU(rec, a)
+            SL.eigsh = fake_eigsh
+            out = s.eigs(k=2)
+            # --- diffusion
+            SL.splu = lambda a: _LU(rec2, a)
+            lapy.Solver = fake_solver
+            geo = FakeGeometry()
+            with np_proxied(H, tr):
+                u = H.diffusion(geo, [2, 0], m=tr.var("m"), aniso=5)
+    finally:
+        SL.splu, SL.eigsh, lapy.Solver = saved
+        NpProxy.tracer = None
+    ka = call.get("args", ())
+    kw = call.get("kw", {})
+    op = kw.get("OPinv")
+    facts = [
+        ("eigsh.A is self.stiffness", len(ka) > 0 and ka[0] is s.stiffness),
+        ("eigsh.k is k", len(ka) > 1 and ka[1] == 2),
+        ("eigsh.M is self.mass", len(ka) > 2 and ka[2] is s.mass),
+        ("eigsh positional args = 3", len(ka) == 3),
+        ("eigsh keywords = OPinv, sigma", sorted(kw) == ["OPinv", "sigma"]),
+        ("OPinv.matvec is lu.solve", op is not None and isinstance(getattr(getattr(op, "_CustomLinearOperator__matvec_impl", None), "__self__", None), _LU)
+         and getattr(op, "_CustomLinearOperator__matvec_impl").__func__ is _LU.solve and getattr(op, "_CustomLinearOperator__matvec_impl").__self__.rec is rec),
+        ("OPinv.shape = shape of A", op is not None and tuple(op.shape) == (3, 3)),
+        ("eigs returns eigsh's output unchanged", isinstance(out, tuple) and len(out) == 2 and out[0] is ret_vals and out[1] is ret_vecs),
+        ("diffusion: Solver(geometry, lump=True, aniso=aniso)", made.get("geometry") is geo and made.get("lump") is True and made.get("aniso") == 5 and made.get("extra") == []),
+        ("diffusion returns the solver output unchanged", isinstance(u, np.ndarray) and [getattr(x, "id", None) for x in u.reshape(-1)] ==
+         [tr.var("x%d" % i).id for i in range(3)]),
+        ("diffusion: matrix format csc", rec2["a"].getformat() == "csc"),
+    ]
+    sig = kw.get("sigma")
+    ab = " ".join("a%d%d" % (i, j) for i in range(3) for j in range(3))
+    bb = " ".join("b%d%d" % (i, j) for i in range(3) for j in range(3))
+    g = GenModule("SolverGlue", "lapy/solver.py::Solver.eigs and lapy/heat.py::diffusion on symbolic 3x3 matrices (external kernels recorded)",
+                  "(%s %s m ell : ℝ)" % (ab, bb))
+    g.set_args("%s %s m ell" % (ab, bb))
+    g.pc(tr, names)
+
+    def coo_of(M):
+        return [(i, j, as_sym(tr, M[i, j])) for i in range(M.shape[0]) for j in range(M.shape[1])]
+    g.coo("shifted", tr, coo_of(rec["a"].M), names)
+    g.scalar("sigma", tr, as_sym(tr, sig).id, names)
+    g.coo("heatMat", tr, coo_of(rec2["a"].M), names)
+    g.vec("heatRhs", tr, flat_syms(tr, rec2["b"]), names)
+    g.raw("/-- facts about the calls of the external kernels observed while tracing -/")
+    g.raw("def callFacts : List (String × Bool) := [%s]\n" % ", ".join('("%s", %s)' % (n, "true" if v else "false") for n, v in facts))
     return [g.write()]
